@@ -28,6 +28,7 @@ pub const KF_PAREN_RECORD: &str = "C16-parenthesised-record-pattern-rhs";
 pub const KF_RECORD_TEMP: &str = "C16-user-name-record-update-temp";
 
 const ORDINARY: &[&str] = &["alpha", "beta", "gamma", "delta", "omega", "kappa", "sigma", "theta", "lambda1", "mu", "nu", "xi", "rho", "tau", "phi", "chi", "psi", "zeta", "eta", "iota"];
+const FIELD_LIKE: &[&str] = &["fc", "fb", "fa", "fc", "fb"];
 const ODD: &[&str] = &["_x", "x_", "x0", "X", "a_b_c", "__", "_1", "dsp_", "self_", "now_", "float_", "fn_", "Let", "selfish", "nowhere", "iff", "mem_", "delay1"];
 const COMPILER_LIKE: &[&str] = &[
     "lambda_0", "lambda_1", "lambda_2", "feed_id0", "feed_id1", "feed_id2", "__dt0", "__dt1", "__lambda_arg_0", "__lambda_arg_1", "record_update_temp", "_mimium_global", "dsp_0", "main_", "_mimium_main", "closure_0", "state_0", "tmp_0", "upv_0", "phi_0",
@@ -62,6 +63,8 @@ fn gen_transform(p: &Prog, g: &mut Gen, allow_feed_id: bool, allow_global_name: 
             break;
         }
         let pool: &[&str] = match (mode, g.below(4)) {
+            // names that are also record keys of the generated programs, in non-alphabetical order
+            (1, 0) | (2, 3) => FIELD_LIKE,
             (1, _) => ORDINARY,
             (2, 0) => COMPILER_LIKE,
             (2, 1) => ODD,
@@ -107,18 +110,44 @@ fn outcome(src: &str, inputs: &Inputs, n: u64) -> Result<Vec<Vec<u64>>, String> 
     }
 }
 
-fn finish(orig: &str, trans: &str, inputs: &Inputs, n: u64, classes: Vec<String>, nontrivial: bool, cx: &Cx) -> CaseResult {
+/// the same, in a fresh child process (the symbol interner of a process remembers every name it has
+/// seen: only a fresh process reads a renamed program the way a user's run would)
+fn outcome_fresh(src: &str, inputs: &Inputs, n: u64, tag: u64) -> Result<Vec<Vec<u64>>, String> {
+    let dir = "/verif/target/work/c16";
+    let _ = std::fs::create_dir_all(dir);
+    let path = format!("{dir}/{}-{tag:016x}.mmm", std::process::id());
+    std::fs::write(&path, src).map_err(|e| format!("error io: {e}"))?;
+    let exe = std::env::current_exe().map_err(|e| format!("error io: {e}"))?;
+    let out = std::process::Command::new(exe).args(["runvm", &path, "--n", &n.to_string(), "--kind", &inputs.kind.to_string(), "--scale", &format!("{:?}", inputs.scale)]).output();
+    let _ = std::fs::remove_file(&path);
+    let out = out.map_err(|e| format!("error io: {e}"))?;
+    if !out.status.success() {
+        return Err(format!("panic child: exit {:?}", out.status.code()));
+    }
+    let v = crate::engine::worker::child_result(&out.stdout).map_err(|e| format!("error child: {e}"))?;
+    if let Some(e) = v.get("err").and_then(|e| e.as_str()) {
+        return Err(e.to_string());
+    }
+    let rows = v.get("ok").and_then(|a| a.as_array()).ok_or("error child: no samples")?;
+    Ok(rows.iter().map(|r| r.as_array().map(|a| a.iter().filter_map(|x| x.as_u64()).collect()).unwrap_or_default()).collect())
+}
+
+fn finish(orig: &str, trans: &str, inputs: &Inputs, n: u64, classes: Vec<String>, nontrivial: bool, fresh: bool, cx: &Cx) -> CaseResult {
     let key = format!("{orig}\u{1}{trans}\u{1}{}\u{1}{n}", inputs.describe());
     let hash = hash64(key.as_bytes());
-    let direct = json!({"original": orig, "transformed": trans, "input_kind": inputs.kind, "input_scale": inputs.scale, "n": n});
+    let direct = json!({"original": orig, "transformed": trans, "input_kind": inputs.kind, "input_scale": inputs.scale, "n": n, "fresh": fresh});
     if cx.dry {
         let mut r = CaseResult::discard("dry");
         r.render = Some(direct.clone());
         r.direct = Some(direct);
         return r;
     }
-    let a = outcome(orig, inputs, n);
-    let b = outcome(trans, inputs, n);
+    let (a, b) = if fresh { (outcome_fresh(orig, inputs, n, hash), outcome_fresh(trans, inputs, n, hash ^ 0x77)) } else { (outcome(orig, inputs, n), outcome(trans, inputs, n)) };
+    if let (Err(x), _) | (_, Err(x)) = (&a, &b) {
+        if x.starts_with("error io") || x.starts_with("error child") {
+            return CaseResult::discard(format!("child:{x}"));
+        }
+    }
     let mut r = match (&a, &b) {
         (Err(x), Err(y)) => {
             // both fail: same kind of failure is required only at the level accept/reject
@@ -191,9 +220,13 @@ impl Prop for C16 {
         cfg.multi_maker_instances = true;
         cfg.capture_destructured = true;
         cfg.tuple_globals = true;
+        // more records bound through record patterns (their key order is what renamings may disturb)
+        cfg.rec_weight = 3;
+        cfg.rec_pattern_thirds = 2;
         let mut pg = PG::new(g, cfg);
         let p = pg.program();
         let mut classes = pg.feat.classes();
+        let pg_records = pg.feat.records > 0;
         let t = gen_transform(&p, g, !cx.excluded(KF_FEED_ID), !cx.excluded(KF_GLOBAL_NAME), !cx.excluded(KF_RECORD_TEMP), false);
         let orig = prog::render(&p, &Layout::default());
         let trans = apply(&p, &t);
@@ -218,7 +251,12 @@ impl Prop for C16 {
             classes.push("t:whitespace".into());
         }
         let nt = !t.rename.is_empty() || t.layout.extra_parens || t.layout.annotate_all || t.layout.comments;
-        let mut r = finish(&orig, &trans, &inputs, n, classes, nt, cx);
+        // renamings into record-key names of programs that use records are judged in fresh processes
+        let fresh = pg_records && t.rename.iter().any(|(_, b)| FIELD_LIKE.iter().any(|f| b == f || b.starts_with(&format!("{f}_"))));
+        if fresh {
+            classes.push("t:fresh-process".into());
+        }
+        let mut r = finish(&orig, &trans, &inputs, n, classes, nt, fresh, cx);
         for id in off {
             r.count(&format!("generator_switch_off:{id}"), 1);
         }
@@ -234,15 +272,16 @@ impl Prop for C16 {
         let t = input.get("transformed")?.as_str()?;
         let inputs = Inputs { kind: input.get("input_kind").and_then(|v| v.as_u64()).unwrap_or(1) as u8, scale: input.get("input_scale").and_then(|v| v.as_f64()).unwrap_or(1.0) };
         let n = input.get("n").and_then(|v| v.as_u64()).unwrap_or(4);
-        Some(finish(o, t, &inputs, n, vec![], true, cx))
+        let fresh = input.get("fresh").and_then(|v| v.as_bool()).unwrap_or(false);
+        Some(finish(o, t, &inputs, n, vec![], true, fresh, cx))
     }
     fn rule(&self) -> String {
-        "Cases are (program, transformation, input stream, run length). The program AST from the core-language generator is rendered twice: canonically, and after a composed transformation — a consistent injective renaming of every user identifier (functions, parameters, locals, globals, lambda parameters; never `dsp`, keywords or builtins) into ordinary names, odd names (`_x`, `x_`, `X`, `selfish`, ...) or names shaped like compiler-generated ones (`lambda_0`, `__dt0`, `__lambda_arg_0`, `record_update_temp`, `_mimium_global`, `feed_id0` when that finding's switch is on), redundant parentheses around every compound expression, annotations of every parameter and return type with the generator's own types, a comment after every statement, other indentation and blank lines. Oracle (metamorphic, VM): both are accepted or both are refused, and when accepted all output words are bitwise equal. Non-trivial = the original runs and the transformed text differs by a renaming, parentheses, annotations or comments.".into()
+        "Cases are (program, transformation, input stream, run length). The program AST from the core-language generator is rendered twice: canonically, and after a composed transformation — a consistent injective renaming of every user identifier (functions, parameters, locals, globals, lambda parameters; never `dsp`, keywords or builtins) into ordinary names, names that are also record keys of the program (`fc`, `fb`, `fa`), odd names (`_x`, `x_`, `X`, `selfish`, ...) or names shaped like compiler-generated ones (`lambda_0`, `__dt0`, `__lambda_arg_0`, `record_update_temp`, `_mimium_global`, `feed_id0` when that finding's switch is on), redundant parentheses around every compound expression, annotations of every parameter and return type with the generator's own types, a comment after every statement, other indentation and blank lines. Renamings into record-key names of programs that use records are run in two fresh child processes (a process's symbol interner remembers every name seen before), all others in the worker. Oracle (metamorphic, VM): both are accepted or both are refused, and when accepted all output words are bitwise equal. Non-trivial = the original runs and the transformed text differs by a renaming, parentheses, annotations or comments.".into()
     }
     fn assumptions(&self) -> Vec<String> {
         vec!["the annotations added are the generator's own types, which are the types the program was built with".into(), "record field names are not renamed".into()]
     }
     fn required_classes(&self, _tier: Tier) -> Vec<&'static str> {
-        vec!["original-runs", "t:rename", "t:compiler-like-names", "t:parens", "t:annotations", "t:comments", "t:whitespace"]
+        vec!["original-runs", "t:rename", "t:compiler-like-names", "t:parens", "t:annotations", "t:comments", "t:whitespace", "t:fresh-process"]
     }
 }
